@@ -1,5 +1,17 @@
+/-!
+# Machine integers and the expression language of `dasp_sample/src/conv.rs`
+
+Values are unbounded `Int`; a machine type is a width + signedness with `lo/hi/modulus`
+given as *literals* so that `omega` sees numerals.  `val` is the value under wrapping
+semantics (what a build without overflow checks computes), `ok` is "no arithmetic-overflow
+panic and no shift ≥ width" (what a build with overflow checks additionally requires),
+`valid` is "every `new_unchecked(x)` received an in-range `x`".
+
+No imports: this file is part of the natively compiled driver.
+-/
 namespace Dasp
 
+/-- Rust primitive integer types used as sample formats or as backing types. -/
 inductive ITy | i8 | i16 | i32 | i64 | u8 | u16 | u32 | u64
 deriving DecidableEq, Repr
 
@@ -14,6 +26,8 @@ deriving DecidableEq, Repr
 @[simp] def ITy.modulus : ITy → Int
   | .i8 | .u8 => 256 | .i16 | .u16 => 65536 | .i32 | .u32 => 4294967296 | .i64 | .u64 => 18446744073709551616
 def ITy.inRange (t : ITy) (v : Int) : Prop := t.lo ≤ v ∧ v ≤ t.hi
+instance (t : ITy) (v : Int) : Decidable (t.inRange v) := by unfold ITy.inRange; infer_instance
+/-- two's-complement wrap-around into the range of `t` -/
 def ITy.wrap (t : ITy) (v : Int) : Int := (v - t.lo) % t.modulus + t.lo
 
 /-- the twelve integer sample formats -/
@@ -26,47 +40,137 @@ deriving DecidableEq, Repr
 @[simp] def Fmt.hi : Fmt → Int
   | .i8 => 127 | .i16 => 32767 | .i24 => 8388607 | .i32 => 2147483647 | .i48 => 140737488355327 | .i64 => 9223372036854775807
   | .u8 => 255 | .u16 => 65535 | .u24 => 16777215 | .u32 => 4294967295 | .u48 => 281474976710655 | .u64 => 18446744073709551615
+/-- half-range offset = the equilibrium value of the format -/
 @[simp] def Fmt.off : Fmt → Int
   | .u8 => 128 | .u16 => 32768 | .u24 => 8388608 | .u32 => 2147483648 | .u48 => 140737488355328 | .u64 => 9223372036854775808
   | _ => 0
 @[simp] def Fmt.bits : Fmt → Nat
   | .i8 | .u8 => 8 | .i16 | .u16 => 16 | .i24 | .u24 => 24 | .i32 | .u32 => 32 | .i48 | .u48 => 48 | .i64 | .u64 => 64
 def Fmt.inRange (t : Fmt) (v : Int) : Prop := t.lo ≤ v ∧ v ≤ t.hi
+instance (t : Fmt) (v : Int) : Decidable (t.inRange v) := by unfold Fmt.inRange; infer_instance
 
+def Fmt.all : List Fmt := [.i8, .i16, .i24, .i32, .i48, .i64, .u8, .u16, .u24, .u32, .u48, .u64]
+
+def Fmt.ofString? : String → Option Fmt
+  | "i8" => some .i8 | "i16" => some .i16 | "i24" => some .i24 | "i32" => some .i32
+  | "i48" => some .i48 | "i64" => some .i64 | "u8" => some .u8 | "u16" => some .u16
+  | "u24" => some .u24 | "u32" => some .u32 | "u48" => some .u48 | "u64" => some .u64
+  | _ => none
+
+/-- comparison operators of the expression language -/
+inductive Cmp | lt | le | gt | ge | eq | ne
+deriving DecidableEq, Repr
+
+def Cmp.holds : Cmp → Int → Int → Prop
+  | .lt, a, b => a < b | .le, a, b => a ≤ b
+  | .gt, a, b => a > b | .ge, a, b => a ≥ b
+  | .eq, a, b => a = b | .ne, a, b => a ≠ b
+instance (c : Cmp) (a b : Int) : Decidable (c.holds a b) := by
+  cases c <;> simp only [Cmp.holds] <;> infer_instance
+
+/-- The integer expression subset of Rust that the conversion functions are written in.
+    Every arithmetic node carries the machine type it is evaluated at (the translator does
+    the local type inference). -/
 inductive Expr
   | var
   | lit (v : Int)
-  | cast (t : ITy) (e : Expr)
-  | add (t : ITy) (a b : Expr) | sub (t : ITy) (a b : Expr)
+  | cast (t : ITy) (e : Expr)                 -- `e as t`
+  | add (t : ITy) (a b : Expr) | sub (t : ITy) (a b : Expr) | mul (t : ITy) (a b : Expr)
+  | neg (t : ITy) (a : Expr)
+  | wadd (t : ITy) (a b : Expr) | wsub (t : ITy) (a b : Expr) | wmul (t : ITy) (a b : Expr)  -- wrapping_*
   | shl (t : ITy) (a : Expr) (k : Nat) | shr (t : ITy) (a : Expr) (k : Nat)
-  | ifLt (a b : Expr) (t e : Expr)
-  | newUnchecked (f : Fmt) (e : Expr)     -- I24::new_unchecked(e): value unchanged, range obligation
-  | call (f : Expr) (arg : Expr)
+  | ite (c : Cmp) (a b : Expr) (t e : Expr)   -- `if a <c> b { t } else { e }`
+  | newUnchecked (f : Fmt) (e : Expr)         -- `I24::new_unchecked(e)`: value unchanged, range obligation
+  | call (f : Expr) (arg : Expr)              -- call of a sibling conversion function
 
+/-- value under wrapping semantics -/
 def val (s : Int) : Expr → Int
   | .var => s
   | .lit v => v
   | .cast t e => t.wrap (val s e)
   | .add t a b => t.wrap (val s a + val s b)
   | .sub t a b => t.wrap (val s a - val s b)
+  | .mul t a b => t.wrap (val s a * val s b)
+  | .neg t a => t.wrap (- val s a)
+  | .wadd t a b => t.wrap (val s a + val s b)
+  | .wsub t a b => t.wrap (val s a - val s b)
+  | .wmul t a b => t.wrap (val s a * val s b)
   | .shl t a k => t.wrap (val s a * 2 ^ k)
   | .shr _ a k => val s a / 2 ^ k
-  | .ifLt a b t e => if val s a < val s b then val s t else val s e
+  | .ite c a b t e => if c.holds (val s a) (val s b) then val s t else val s e
   | .newUnchecked _ e => val s e
   | .call f a => val (val s a) f
 
+/-- no arithmetic-overflow panic, no over-long shift (builds with overflow checks) -/
 def ok (s : Int) : Expr → Prop
   | .var => True
   | .lit _ => True
   | .cast _ e => ok s e
   | .add t a b => ok s a ∧ ok s b ∧ t.inRange (val s a + val s b)
   | .sub t a b => ok s a ∧ ok s b ∧ t.inRange (val s a - val s b)
+  | .mul t a b => ok s a ∧ ok s b ∧ t.inRange (val s a * val s b)
+  | .neg t a => ok s a ∧ t.inRange (- val s a)
+  | .wadd _ a b => ok s a ∧ ok s b
+  | .wsub _ a b => ok s a ∧ ok s b
+  | .wmul _ a b => ok s a ∧ ok s b
   | .shl t a k => ok s a ∧ k < t.bits
   | .shr t a k => ok s a ∧ k < t.bits
-  | .ifLt a b t e => ok s a ∧ ok s b ∧ (val s a < val s b → ok s t) ∧ (¬ val s a < val s b → ok s e)
-  | .newUnchecked f e => ok s e ∧ f.inRange (val s e)
+  | .ite c a b t e => ok s a ∧ ok s b ∧ (c.holds (val s a) (val s b) → ok s t) ∧ (¬ c.holds (val s a) (val s b) → ok s e)
+  | .newUnchecked _ e => ok s e
   | .call f a => ok s a ∧ ok (val s a) f
 
+/-- every `new_unchecked` receives an in-range value -/
+def valid (s : Int) : Expr → Prop
+  | .var => True
+  | .lit _ => True
+  | .cast _ e => valid s e
+  | .add _ a b | .sub _ a b | .mul _ a b | .wadd _ a b | .wsub _ a b | .wmul _ a b => valid s a ∧ valid s b
+  | .neg _ a => valid s a
+  | .shl _ a _ | .shr _ a _ => valid s a
+  | .ite c a b t e => valid s a ∧ valid s b ∧ (c.holds (val s a) (val s b) → valid s t) ∧ (¬ c.holds (val s a) (val s b) → valid s e)
+  | .newUnchecked f e => valid s e ∧ f.inRange (val s e)
+  | .call f a => valid s a ∧ valid (val s a) f
+
+/-- executable twin of `ok`, used by the driver (see `okb_iff`) -/
+def okb (s : Int) : Expr → Bool
+  | .var => true
+  | .lit _ => true
+  | .cast _ e => okb s e
+  | .add t a b => okb s a && okb s b && decide (t.inRange (val s a + val s b))
+  | .sub t a b => okb s a && okb s b && decide (t.inRange (val s a - val s b))
+  | .mul t a b => okb s a && okb s b && decide (t.inRange (val s a * val s b))
+  | .neg t a => okb s a && decide (t.inRange (- val s a))
+  | .wadd _ a b => okb s a && okb s b
+  | .wsub _ a b => okb s a && okb s b
+  | .wmul _ a b => okb s a && okb s b
+  | .shl t a k => okb s a && decide (k < t.bits)
+  | .shr t a k => okb s a && decide (k < t.bits)
+  | .ite c a b t e => okb s a && okb s b && (if c.holds (val s a) (val s b) then okb s t else okb s e)
+  | .newUnchecked _ e => okb s e
+  | .call f a => okb s a && okb (val s a) f
+
+theorem okb_iff (s : Int) (e : Expr) : okb s e = true ↔ ok s e := by
+  induction e generalizing s with
+  | ite c a b t e iha ihb iht ihe =>
+    simp only [okb, ok, Bool.and_eq_true, iha, ihb]
+    by_cases h : c.holds (val s a) (val s b) <;> simp [h, iht, ihe, and_assoc]
+  | shl t a k ih => simp only [okb, ok, Bool.and_eq_true, ih, decide_eq_true_eq]
+  | shr t a k ih => simp only [okb, ok, Bool.and_eq_true, ih, decide_eq_true_eq]
+  | _ => simp_all [okb, ok, and_assoc]
+
+/-- executable twin of `valid` -/
+def validb (s : Int) : Expr → Bool
+  | .var => true
+  | .lit _ => true
+  | .cast _ e => validb s e
+  | .add _ a b | .sub _ a b | .mul _ a b | .wadd _ a b | .wsub _ a b | .wmul _ a b => validb s a && validb s b
+  | .neg _ a => validb s a
+  | .shl _ a _ | .shr _ a _ => validb s a
+  | .ite c a b t e => validb s a && validb s b && (if c.holds (val s a) (val s b) then validb s t else validb s e)
+  | .newUnchecked f e => validb s e && decide (f.inRange (val s e))
+  | .call f a => validb s a && validb (val s a) f
+
+/-- Specification: signed amplitude times `2^(target bits − source bits)`, floor when narrowing. -/
 def specConv (s d : Fmt) (v : Int) : Int :=
   if s.bits ≤ d.bits then (v - s.off) * 2 ^ (d.bits - s.bits) + d.off
   else (v - s.off) / 2 ^ (s.bits - d.bits) + d.off
